@@ -19,14 +19,14 @@ ASSUMPTIONS = ['process table simulated and validated against the real kernel (s
 REQUIRED_FLAGS = {'decoy_placed': 1, 'ignores': 1, 'stopped': 1, 'mid_exit': 1, 'latency_choice': 1, 'delay0': 1, 'delay0-ignores': 1}
 
 PTY_OPS = ['isalive', 'kill_term', 'kill_kill', 'terminate', 'terminate_force', 'close', 'close_noforce', 'sendeof',
-           'expect_eof', 'send', 'rnb', 'with_exit', 'del', 'wait', 'closed_logfile']
-FD_OPS = ['isalive', 'close', 'send', 'expect_eof', 'rnb', 'with_exit', 'del', 'closed_logfile']
+           'expect_eof', 'send', 'rnb', 'with_exit', 'del', 'wait', 'closed_logfile', 'send_closing_log']
+FD_OPS = ['isalive', 'close', 'send', 'expect_eof', 'rnb', 'with_exit', 'del', 'closed_logfile', 'send_closing_log']
 DISPOSITIONS = ['normal', 'ignores', 'stopped', 'exited', 'exits-mid']      # + 'peer-closes' (fd/socket), 'kill-esrch' (fault answer)
 
 
 def bounds(tier):
     return dict(pty_ops=PTY_OPS, fd_ops=FD_OPS, dispositions=DISPOSITIONS, max_len=3 if tier == 'quick' else 4,
-                transports=['pty-select', 'pty-poll(len<=2)', 'fd-select', 'socket'], latency=[0.0, 0.05, 0.095], zero_grace_periods=True)
+                transports=['pty-select', 'pty-poll(len<=2)', 'fd-select', 'fd-fileobj (fdspawn given a file object that does not own its descriptor)', 'socket'], latency=[0.0, 0.05, 0.095], zero_grace_periods=True)
 
 
 def tasks(tier):
@@ -36,7 +36,7 @@ def tasks(tier):
             out.append(dict(transport='pty-select', disposition=disp, first=first, tier=tier))
     for disp in ('normal', 'ignores'):
         out.append(dict(transport='pty-poll', disposition=disp, first=None, tier=tier))
-    for tr in ('fd-select', 'socket'):
+    for tr in ('fd-select', 'socket', 'fd-fileobj'):
         out.append(dict(transport=tr, disposition='normal', first=None, tier=tier))
         out.append(dict(transport=tr, disposition='peer-closes', first=None, tier=tier))
     for first in ('terminate', 'terminate_force', 'kill_term'):
